@@ -504,8 +504,62 @@ func candSilentScenario(name, kind string, probe, pendingPoll bool) Scenario {
 	}}
 }
 
+// (9) C01: a broadcast: one pre-encoded frame in one shared options value sent to several sessions, more than once
+func broadcastScenario(name string, bin bool) Scenario {
+	return Scenario{Name: name, Run: func(t *testing.T, rec *Rec, g *Gates) {
+		cfg := EngCfg{PI: 25 * time.Second, PT: 20 * time.Second, WT: true}
+		w := newEngWorld(t, rec, g, cfg)
+		sc := &Script{w: w, r: rand.New(rand.NewSource(1)), cfg: cfg, W: map[string]int{}}
+		var sids []string
+		add := func(c *cliSess) {
+			sc.ss = append(sc.ss, c)
+			sc.settle()
+			if c.S.Sid != "" {
+				sids = append(sids, c.S.Sid)
+			}
+		}
+		for i := 0; i < 2; i++ {
+			s := &Sess{Proto: 4}
+			c := &cliSess{S: s, Kind: "websocket", autoPong: true}
+			c.ws = w.DialWS(s, "", nil, func(wc *WSClient, p Pkt) { sc.processPkts(c, []Pkt{p}, wc) })
+			add(c)
+		}
+		{
+			s := &Sess{Proto: 4}
+			c := &cliSess{S: s, Kind: "websocket", autoPong: true}
+			c.ws = w.DialWT(s, func(wc *WSClient, p Pkt) { sc.processPkts(c, []Pkt{p}, wc) })
+			add(c)
+		}
+		{
+			s, _ := w.Handshake(4, false, false, ReqOpt{})
+			c := &cliSess{S: s, Kind: "polling", autoPong: true}
+			add(c)
+			sc.doPoll(c)
+			sc.settle()
+		}
+		for round := 0; round < 2; round++ {
+			w.Broadcast(sids, 12+round, bin)
+			sc.settle()
+			for _, sid := range sids {
+				go w.Send(sid, SendOpt{Size: 5})
+			}
+			sc.settle()
+			for _, c := range sc.ss {
+				if c.Kind == "polling" && (c.poll == nil || c.poll.Status != 0) {
+					c.poll = nil
+					sc.doPoll(c)
+				}
+			}
+			sc.settle()
+		}
+		sc.Drain()
+		w.Finish()
+	}}
+}
+
 func directFamily() []Scenario {
 	var out []Scenario
+	out = append(out, broadcastScenario("broadcast_text", false), broadcastScenario("broadcast_binary", true))
 	for _, kind := range []string{"websocket", "webtransport"} {
 		for _, probe := range []bool{false, true} {
 			for _, pp := range []bool{false, true} {
